@@ -339,7 +339,7 @@ def build_cases(ctx, packets, specs):
     # 6. the configuration layer: State built by the real InitState (c07_init_test.go) from a RawConfig
     anyok = packets[sorted(oks.values())[0]]
     for cfg, probes in config_specs():
-        gocfg = {k: cfg[k] for k in ('book', 'bypass', 'admin', 'pk', 'redir', 'db', 'users', 'keepalive', 'cnc', 'hosts')}
+        gocfg = {k: cfg[k] for k in ('book', 'bypass', 'admin', 'pk', 'redir', 'db', 'dbbad', 'users', 'keepalive', 'cnc', 'hosts')}
         ostate = cfg_oracle_state(cfg)
         mine = sorted(n for n, g in specs.items() if g.get('cfgname') == cfg['name'])
         for n in mine or [None]:
@@ -577,7 +577,7 @@ CFG_USERS = [user(CDB)]
 
 def mkcfg(name, **kw):
     c = dict(name=name, book=dict(BOOK0), bypass=[], admin='', pk=CPK, redir='127.0.0.1', db=False, users=[], keepalive=0, cnc=False,
-             hosts=['127.0.0.1'], wf=True)
+             hosts=['127.0.0.1'], wf=True, dbbad=False)
     c.update(kw)
     return c
 
@@ -620,6 +620,9 @@ def config_specs():
         (mkcfg('book-pair1', bypass=[CB1], book={'x': ['tcp']}), []),
         (mkcfg('book-pair3', bypass=[CB1], book={'x': ['tcp', '127.0.0.1:1', 'y']}), []),
         (mkcfg('book-badaddr', bypass=[CB1], book={'x': ['tcp', '127.0.0.1']}), []),
+        (mkcfg('book-badudp', bypass=[CB1], book={'x': ['UDP', '127.0.0.1:99999']}), []),
+        (mkcfg('db-unopenable', admin=CA, dbbad=True), []),
+        (mkcfg('db-unopenable-noadmin', bypass=[CB1], dbbad=True), std(CB1)),       # Voidmanager: the path is never opened
         (mkcfg('book-badaddr-skipped-net', bypass=[CB1], book={'x': ['unix', '127.0.0.1'], 'shadowsocks': ['tcp', '127.0.0.1:1']}), std(CB1)),
     ]
     return out
@@ -641,7 +644,7 @@ def cfg_tokens(cfg):
     ka = cfg['keepalive']
     return 'cfg=1 rpk=%s radmin=%s rbypass=%s rbook=%s rredir=%s rdb=%d rka=%s rcnc=%d' % (
         cfg['pk'] or '-', cfg['admin'] or '-', ','.join(e(b) for b in cfg['bypass']) or '-', book, cfg['redir'].encode().hex() or '-',
-        1 if cfg['db'] else 0, c9.zhex(ka), 1 if cfg['cnc'] else 0)
+        2 if cfg['dbbad'] else (1 if cfg['db'] else 0), c9.zhex(ka), 1 if cfg['cnc'] else 0)
 
 
 def cfg_oracle_state(cfg):
